@@ -191,7 +191,7 @@ func checkC10(raw json.RawMessage) (ev.Result, error) {
 	if c.Strace {
 		n := 0
 		for _, s := range rr.Strace {
-			if s.Name == "seccomp" {
+			if s.Name == "seccomp" && len(s.Args) > 0 && s.Args[0] == "0x1" {
 				n++
 				want := fmt.Sprintf("%#x", c.Flag)
 				if c.Flag == 0 {
